@@ -76,7 +76,10 @@ UNITS_MAG = [50.0, 50.0, 5.0e4, 0.5, 5.0e-5, 1.0]
 GYRO_MODES = ["gaussian", "one-axis", "two-axes", "quantised", "gaussian"]
 
 
-def gyro_noise(rng, n, sigma, mode):
+NULL_RATE_IS_NO_DATA = ("Madgwick", "Mahony", "AQUA")      # these return the a-priori attitude for an all-zero gyroscope sample (their documented "no data" guard)
+
+
+def gyro_noise(rng, n, sigma, mode, keep_dead_rows=False):
     """Small-noise gyroscope realisations (all below ~4 sigma <= 4e-3 rad/s): continuous on three axes, confined to one or two
     axes (the other components exactly zero), or quantised to an LSB of sigma/2 (many exactly-zero components)."""
     G_ = rng.standard_normal((n, 3)) * sigma
@@ -88,8 +91,11 @@ def gyro_noise(rng, n, sigma, mode):
     elif mode == "quantised":
         lsb = sigma / 2.0
         G_ = np.round(G_ / lsb) * lsb
-        dead = ~np.any(G_ != 0, axis=1)             # an all-zero sample is 'no data' for every filter: keep the realisation noisy
-        G_[dead, 0] = lsb
+        dead = ~np.any(G_ != 0, axis=1)             # an all-zero sample is 'no data' for the filters with a null-rate guard: keep the realisation noisy for them
+        if not keep_dead_rows:
+            G_[dead, 0] = lsb
+    elif mode == "at-rest" and keep_dead_rows:
+        G_ = np.zeros((n, 3))                       # an ideal gyroscope on a motionless sensor: the smallest noise realisation there is
     return G_
 
 
@@ -177,7 +183,11 @@ def check(case, ctx):
         ua = 9.81       # AQUA's adaptive gain is a function of | |acc| - g | by design: its accelerometer must report in m/s^2
     acc, mag = cfg.measurements(qt, g_ref, m_ref, sa=ua, sm=um)
     n_tot = int(1.5 * N) + 1
-    G_ = gyro_noise(rng, n_tot, p["gyro_sigma"], p.get("gyro_mode", "gaussian"))
+    keep_dead = not cfg.name.startswith(NULL_RATE_IS_NO_DATA)
+    mode_ = p.get("gyro_mode", "gaussian")
+    if keep_dead and mode_ == "two-axes" and int(p["seed"]) % 2:
+        mode_ = "at-rest"
+    G_ = gyro_noise(rng, n_tot, p["gyro_sigma"], mode_, keep_dead_rows=keep_dead)
     A = np.tile(acc, (n_tot, 1))
     M = None if mag is None else np.tile(mag, (n_tot, 1))
     if cfg.name == "FKF" or (not cfg.streams and not cfg.name.startswith("Complementary")):
